@@ -57,6 +57,8 @@ def impl(case):
         out = real_svd(a, *args, **kw)
         tape.append((np.array(a, dtype=float), [np.array(o, dtype=float) for o in out]))
         return out
+    if case.get("dtype"):      # integer-valued point sets handed over with an integer dtype (the values are the same numbers)
+        x, y = x.astype(case["dtype"]), y.astype(case["dtype"])
     x0, y0 = x.copy(), y.copy()
     np.linalg.svd = rec
     try:
@@ -342,6 +344,18 @@ def gen(ctx):
                 x[a] = rng.normal(size=n) * mag
                 cases.append({"kind": "umeyama", "ws": bool(rep % 2), "mode": "axis%d_large" % a, "degenerate": "axis%d, |x| ~ %g" % (a, mag),
                               "x": H(x), "y": H(rng.normal(size=(3, n)) * float(rng.choice([1.0, mag])))})
+    # integer-valued sets with unsigned / narrow integer dtypes (pixel or grid coordinates): the same numbers, the same result
+    perms = [np.eye(3), np.array([[0, -1, 0], [1, 0, 0], [0, 0, 1.0]]), np.array([[0, 0, 1], [1, 0, 0], [0, 1, 0.0]])]
+    for i in range(ctx.n(12, 48)):
+        n = int(rng.integers(4, 30))
+        x = np.rint(rng.uniform(0, 60, size=(3, n)))
+        R0, c0 = perms[i % 3], float([1.0, 2.0][(i // 3) % 2])
+        y = c0 * (R0 @ x)
+        t0 = np.rint(-y.min(axis=1)) + np.rint(rng.uniform(0, 5, size=3))     # keeps every coordinate non-negative
+        y = y + t0[:, None]
+        ws = bool((i // 3) % 2)
+        cases.append({"kind": "umeyama", "ws": ws, "mode": "int_dtype", "x": H(x), "y": H(y), "noise_free": True,
+                      "dtype": ["uint8", "uint16", "int16", "uint32"][i % 4], "gt": {"c": hexf(c0), "r": H(R0), "t": H(t0)}})
     for i in range(ctx.n(8, 30)):
         n = int(rng.integers(2, 20))
         cases.append({"kind": "umeyama", "ws": bool(i % 2), "mode": "unequal", "x": H(rng.normal(size=(3, n))),
